@@ -45,6 +45,10 @@ CLIENT_VICTIM_KINDS = {  # sent by the adversarial SERVER
     "NST": ("new_session_ticket", {}),
     "EOED": ("end_of_early_data", {}),
     "EE": ("encrypted_extensions", {}),
+    # EncryptedExtensions flavours: the early_data extension although no early data was offered
+    # (a claim of 0-RTT acceptance), and an extension the client never asked for
+    "EE/early": ("encrypted_extensions", {"extra_extensions": [(R.EXT_EARLY_DATA, b"")]}),
+    "EE/unk": ("encrypted_extensions", {"extra_extensions": [(0xABCD, b"xyz")]}),
     "CR": ("certificate_request", {}),
     "CERT": ("certificate", {}),
     "CV": ("certificate_verify", {"key": "leaf"}),
@@ -126,6 +130,9 @@ class Ref:
                                               MAC; selection of a PSK that was not
                                               offered): must not be accepted
                        ("either",)            type permitted, support optional (HRR)
+                       ("accept_optional", next_state)  type permitted, content the victim may
+                                              refuse (unsolicited extensions); if it is taken
+                                              the state must be next_state
     """
 
     def __init__(self, role, offered_psk=False, request_cert=False, client_psk=False):
@@ -153,6 +160,10 @@ class Ref:
             elif s == "WAIT_EE":
                 if label == "EE":
                     return ("accept", "WAIT_FINISHED" if self.psk_selected else "WAIT_CERT_CR")
+                if label in ("EE/early", "EE/unk"):
+                    # the client may refuse extensions it did not ask for; if it takes the message,
+                    # what comes next is decided by PSK selection alone, exactly as for a plain EE
+                    return ("accept_optional", "WAIT_FINISHED" if self.psk_selected else "WAIT_CERT_CR")
             elif s == "WAIT_CERT_CR":
                 if label == "CR":
                     return ("accept", "WAIT_CERT")
@@ -533,6 +544,12 @@ def check_step(w, label, cls, exc, deep_before, canon_before, released, ref_befo
                      "refused %s changed the context or released keys %r" % (where, rel)), "BAD")
         return (None, "refused:" + excname)
 
+    if cls[0] == "accept_optional" and exc is not None:
+        if rel or w.canon() != canon_before:
+            return ((_sig(w, "refusal_changed_state", label, state_after=state_after, keys=rel),
+                     "refused %s changed the context or released keys %r" % (where, rel)), "BAD")
+        return (None, "refused:" + excname)
+
     # legal
     nxt = cls[1]
     if exc is not None:
@@ -606,7 +623,7 @@ def run_history(variant, history, mode="each", trace=None):
             exc = w.feed(raw)
             released = w.keys[nkeys:]
             viol, outcome = check_step(w, label, cls, exc, deep_before, canon_before, released, ref_before)
-            if viol is None and exc is None and cls[0] == "accept":
+            if viol is None and exc is None and cls[0] in ("accept", "accept_optional"):
                 w.ref.apply(label, cls[1])
                 viol_l = check_ledger(w, label, released)
                 if viol_l is not None:
@@ -979,11 +996,11 @@ def strengths(seq, alts):
 
 SEQ_WORLDS = {
     # name -> (variant, hello label, letters, alternatives, literal legal flights)
-    "c_full": ("c_full", "SH", ("EE", "CR", "CERT", "CV", "FIN"), {"CV": ("CV", "CV/spare")},
+    "c_full": ("c_full", "SH", ("EE", "CR", "CERT", "CV", "FIN"), {"CV": ("CV", "CV/spare"), "EE": ("EE", "EE/early", "EE/unk")},
                {("EE", "CERT", "CV", "FIN"), ("EE", "CR", "CERT", "CV", "FIN")}),
-    "c_offered_not_selected": ("c_offered", "SH", ("EE", "CR", "CERT", "CV", "FIN"), {"CV": ("CV", "CV/spare")},
+    "c_offered_not_selected": ("c_offered", "SH", ("EE", "CR", "CERT", "CV", "FIN"), {"CV": ("CV", "CV/spare"), "EE": ("EE", "EE/early", "EE/unk")},
                                {("EE", "CERT", "CV", "FIN"), ("EE", "CR", "CERT", "CV", "FIN")}),
-    "c_psk_selected": ("c_offered", "SH/psk0", ("EE", "CR", "CERT", "CV", "FIN"), {"CV": ("CV", "CV/spare")},
+    "c_psk_selected": ("c_offered", "SH/psk0", ("EE", "CR", "CERT", "CV", "FIN"), {"CV": ("CV", "CV/spare"), "EE": ("EE", "EE/early", "EE/unk")},
                        {("EE", "FIN")}),
     "s_plain": ("s_plain", "CH", ("CERT", "CV", "FIN"),
                 {"CV": ("CV", "CV/spare"), "CERT": ("CERT", "CERT/empty")}, {("FIN",)}),
@@ -996,7 +1013,7 @@ SEQ_WORLDS = {
 
 
 def sequence_jobs(plan, extra_slice=None):
-    """plan = [(mode, multiplicity, max length)]; extra_slice = (mult, maxlen, k, n): quick tier
+    """plan = [(mode, multiplicity, max length, EE flavours?)]; extra_slice = (mult, maxlen, k, n): quick tier
     adds the k-th of n slices of the thorough space (chosen by VERIF_SEED, mode "each").
     Returns {world name: (jobs, info)}."""
     out = {}
@@ -1004,22 +1021,32 @@ def sequence_jobs(plan, extra_slice=None):
         jobs = []
         base_seqs = []
         seqs = []
-        for mode, mult, maxlen in plan:
+        seen_jobs = set()
+        for mode, mult, maxlen, ee_flavours in plan:
             b_ = multiset_orderings(letters, mult, maxlen)
-            s_ = [s for b in b_ for s in strengths(b, alts)]
-            if len(b_) > len(base_seqs):
+            a_ = dict(alts)
+            if not ee_flavours:
+                a_.pop("EE", None)
+            s_ = [s for b in b_ for s in strengths(b, a_)]
+            if len(s_) > len(seqs):
                 base_seqs, seqs = b_, s_
-            jobs += [(variant, (hello,) + s, mode) for s in s_]
+            for s in s_:
+                j = (variant, (hello,) + s, mode)
+                if j not in seen_jobs:
+                    seen_jobs.add(j)
+                    jobs.append(j)
         n_extra = 0
         if extra_slice is not None:
             emult, elen, k, n = extra_slice
             have = set(j[1] for j in jobs if j[2] == "each")
-            pool = [s for b in multiset_orderings(letters, emult, elen) for s in strengths(b, alts)]
+            a_ = dict(alts)
+            a_.pop("EE", None)
+            pool = [s for b in multiset_orderings(letters, emult, elen) for s in strengths(b, a_)]
             for i, s in enumerate(pool):
                 if i % n == k and (hello,) + s not in have:
                     jobs.append((variant, (hello,) + s, "each"))
                     n_extra += 1
-        modes = sorted(set(m for m, _, _ in plan))
+        modes = sorted(set(p[0] for p in plan))
         out[name] = (jobs, dict(base_seqs=len(base_seqs), seqs=len(seqs), n_extra=n_extra, modes=modes))
     return out
 
@@ -1050,7 +1077,12 @@ def sequences_eval(ctx, all_jobs, all_res):
                     finished_after_refusal += 1
         # the literal statement, independent of the step-wise reference: the flights that make
         # the victim finish without any alert are exactly the legal ones
-        extra = finished_clean - legal
+        # flavours of EncryptedExtensions the victim chose to accept are as good as the plain one
+        tolerated = set(legal)
+        for flight in legal:
+            for fl in ("EE/early", "EE/unk"):
+                tolerated.add(tuple(fl if x == "EE" else x for x in flight))
+        extra = finished_clean - tolerated
         lacking = legal - finished_clean
         for s in sorted(extra, key=lambda s: (len(s), s)):
             ctx.violation({"monitor": "illegal_flight_finished", "role": VARIANTS[variant]["role"], "world": name,
@@ -1097,10 +1129,11 @@ def run(ctx):
     client_ticket()
     server_ticket()
     if ctx.tier == "quick":
-        plan = [("each", 1, 5), ("concat", 1, 5)]
+        # (mode, multiplicity, max length, with EncryptedExtensions flavours?)
+        plan = [("each", 1, 5, True), ("concat", 1, 5, False)]
         extra = (2, 6, ctx.seed % 16, 16)     # a seed-chosen 1/16 of the thorough space on top
     else:
-        plan = [("each", 2, 7), ("concat", 2, 6)]
+        plan = [("each", 2, 6, True), ("each", 2, 7, False), ("concat", 2, 6, False)]
         extra = None
     mult = max(p[1] for p in plan)
     maxlen = max(p[2] for p in plan)
